@@ -121,3 +121,26 @@ def minimise_ops(case, still_fails, budget_s=6.0, key='ops'):
     out = dict(case)
     out[key] = ops
     return out
+
+
+# ---------------------------------------------------------------------------
+# budget-aware stateful runs
+# ---------------------------------------------------------------------------
+def run_machine_chunked(ctx, machine, label, total, steps, chunk=250):
+    """
+    Run ``total`` histories of a RuleBasedStateMachine in chunks with independent derived seeds, stopping
+    between chunks once the shard's budget is used up (Hypothesis itself cannot be told to stop early).
+    Returns the number of histories requested from Hypothesis.
+    """
+    import hypothesis
+    from hypothesis.stateful import run_state_machine_as_test
+    from .core import derive_seed
+    done = 0
+    k = 0
+    while done < total and not ctx.out_of_time():
+        n = min(chunk, total - done)
+        run_state_machine_as_test(hypothesis.seed(derive_seed(ctx.seed, label, k))(machine),
+                                  settings=ctx.settings(n, stateful_step_count=steps))
+        done += n
+        k += 1
+    return done
